@@ -19,6 +19,7 @@ static struct cmd cmds[] = {
   {"c06", cmd_c06},
   {"c08", cmd_c08},
   {"c16", cmd_c16},
+  {"c16s", cmd_c16s},
   {"c17", cmd_c17},
   {"c19", cmd_c19},
   {NULL, NULL}
